@@ -337,14 +337,14 @@ func (w *worker) explore(it item, m int, res *result) {
 					continue
 				}
 				pf, _, prob := draw(v)
+				if prob != "" {
+					continue // reported by the oracle below (a value that picks nobody) or above (harness)
+				}
 				full := append(append([]int64{}, st.prefix...), v)
 				picks, _, err := w.fullRun(es, groups, full)
 				ps := -1
 				if err == nil && len(picks) > d {
 					ps = idxOf(picks[d])
-				}
-				if prob == "nobody" {
-					pf = -1
 				}
 				if pf != ps {
 					res.Viols = append(res.Viols, viol{"harness/fast-path", fmt.Sprintf("%s: answer %d picks provider %d with restored flags but %d on fresh scores", where(d, st.mask), v, pf, ps), nil})
